@@ -137,4 +137,35 @@ func init() {
 			{Dir: "bloom", Name: "ZZ_C20_locking", Reach: []string{"end"}, Tweak: bloomStubs("maxpushes", 1, "maxpushlen", 1)},
 		},
 	})
+	merkleCfg := func(kv ...interface{}) func(c *sym.HarnessCfg, tier string) {
+		return func(c *sym.HarnessCfg, tier string) {
+			c.InjectiveUF = true
+			for i := 0; i+1 < len(kv); i += 2 {
+				if kv[i].(string) == "lazy" {
+					c.Lazy = kv[i+1].(int) == 1
+				}
+			}
+			c.Stubs = map[string]string{
+				"(*github.com/gcash/bchd/wire.MsgTx).TxHash":                "zzStubTxHash",
+				"(*github.com/gcash/bchutil/bloom.Filter).MatchTxAndUpdate": "zzStubMatchTx",
+			}
+			for i := 0; i+1 < len(kv); i += 2 {
+				c.Params[kv[i].(string)] = kv[i+1].(int)
+			}
+		}
+	}
+	reg(&PropSpec{
+		ID: "C11",
+		Harnesses: []HarnessSpec{
+			{Dir: "merkleblock", Name: "ZZ_C11_build", Variant: "n<=5", Reach: []string{"end"}, Tweak: merkleCfg("maxn", 5)},
+			{Dir: "merkleblock", Name: "ZZ_C11_build", Variant: "n=6..9", Tiers: "thorough", Reach: []string{"end"}, Tweak: merkleCfg("minn", 6, "maxn", 9)},
+		},
+	})
+	reg(&PropSpec{
+		ID: "C12",
+		Harnesses: []HarnessSpec{
+			{Dir: "merkleblock", Name: "ZZ_C12_extract", Variant: "n<=2,flags<=1B,4-hash alphabet", Reach: []string{"extracted", "accepted"}, Tweak: merkleCfg("maxn", 2, "maxflagbytes", 1, "hashbits", 2)},
+			{Dir: "merkleblock", Name: "ZZ_C12_extract", Variant: "n<=4,flags<=1B,full hashes", Tiers: "thorough", Reach: []string{"extracted", "accepted"}, Tweak: merkleCfg("maxn", 4, "maxflagbytes", 1)},
+		},
+	})
 }
